@@ -4,7 +4,8 @@
     /repo/lib/signxap/sign.go      (DigestXapTar, removeSignature, XapDigest.Sign)
     /repo/lib/signxap/verify.go    (Verify: locator, header/trailer consistency test, digest range)
     /repo/lib/zipslicer/tarzip.go  (ZipToTar: the two-member tar framing; FindDirectory is `Relic.Zip.findDirectory`)
-    /repo/signers/xap/signer.go    (transform = ZipToTar, sign = DigestXapTar + Sign + SetBinPatch, verify = Verify(f, size))
+    /repo/signers/xap/signer.go    (transform = frame-aware ZipToTar, sign = DigestXapTar + Sign + SetBinPatch, verify = Verify(f, size))
+    `…Orig` definitions: the code before the repairs of findings FX1 (removeSignature) and F10 (transform).
 
   The tar layer is modelled after `archive/tar` has parsed it: a list of members (name, declared size, bytes that
   are really there) and the way the stream ends.  Hashes, PKCS#7 and signatures are parameters: the digester is
@@ -36,20 +37,36 @@ def trailer (u t : Nat) : Bytes := leBytes 4 trailerMagic ++ leBytes 2 u ++ leBy
 /-- what `XapDigest.Sign` puts into the patch for the PKCS#7 blob `s` -/
 def sigBlock (s : Bytes) : Bytes := header 1 1 s.length ++ s ++ trailer 1 (s.length + 8)
 
-/-! ### `removeSignature` (sign.go), the tree as it is now (both guards present) -/
+/-! ### `removeSignature` (sign.go)
+
+  `removeSignatureOrig`: the code before the repair of finding FX1 (both bounds guards present, the header in front of the
+  blob not looked at).  `frameSize` / `removeSignature`: the repaired code – `SignatureFrameSize` and the `removeSignature`
+  defined through it: only a complete frame whose header and trailer agree (the test `Verify` applies) is cut off. -/
 
 /-- the `Magic` field of the last ten bytes -/
 def trMagic (cd : Bytes) : Nat := leVal ((cd.drop (cd.length - 10)).take 4)
 /-- the `TrailerSize` field of the last ten bytes -/
 def trSize (cd : Bytes) : Nat := leVal (((cd.drop (cd.length - 10)).drop 6).take 4)
 
-/-- `removeSignature(cd)`: when the last ten bytes carry the trailer magic and `TrailerSize + 10` does not exceed the
-    blob, that many bytes are cut off the end – the header in front of the blob is *not* looked at. -/
-def removeSignature (cd : Bytes) : Bytes :=
+/-- `removeSignature(cd)` before the repair: when the last ten bytes carry the trailer magic and `TrailerSize + 10` does not
+    exceed the blob, that many bytes are cut off the end – the header in front of the blob is *not* looked at. -/
+def removeSignatureOrig (cd : Bytes) : Bytes :=
   if cd.length < 10 then cd else
   if trMagic cd = trailerMagic then
     if cd.length < trSize cd + 10 then cd else cd.take (cd.length - (trSize cd + 10))
   else cd
+
+/-- `SignatureFrameSize(r, size)` for `size = len(f)`: the length of the frame (header, blob, trailer) that ends at the end
+    of `f`, or 0 when the bytes there are not a complete frame with `TrailerSize ≥ 8` and `SignatureSize = TrailerSize − 8`.
+    Every read lies inside `f`, so none of the `binary.Read` calls can fail. -/
+def frameSize (f : Bytes) : Nat :=
+  if f.length < 18 then 0 else
+  if trMagic f ≠ trailerMagic ∨ trSize f < 8 then 0 else
+  if f.length < trSize f + 10 then 0 else
+  if leVal ((f.drop (f.length - (trSize f + 10) + 4)).take 4) ≠ trSize f - 8 then 0 else trSize f + 10
+
+/-- `removeSignature(cd)` as repaired: `cd[:len(cd) - SignatureFrameSize(cd)]` -/
+def removeSignature (cd : Bytes) : Bytes := cd.take (cd.length - frameSize cd)
 
 /-! ### the tar framing (tarzip.go) and `DigestXapTar` -/
 
@@ -83,24 +100,38 @@ structure Digest where
   patchLen : Int
   deriving Repr, DecidableEq
 
-/-- `DigestXapTar`.  `bodySize = totalSize - len(cd)` may be negative: `io.CopyN` with a negative count copies
-    nothing and reports no error. -/
-def digestTar (ms : List Member) (clean : Bool) : Res Digest :=
+/-- `DigestXapTar` with `rm` in the place of `removeSignature`.  `bodySize = totalSize - len(cd)` may be negative:
+    `io.CopyN` with a negative count copies nothing and reports no error. -/
+def digestTarWith (rm : Bytes → Bytes) (ms : List Member) (clean : Bool) : Res Digest :=
   (walk [] clean ms).bind fun (cd, m) =>
     let bodySize : Int := (m.size : Int) - cd.length
     if m.data.length < bodySize.toNat then .err "unexpectedeof" else
-    let cd' := removeSignature cd
+    let cd' := rm cd
     let zipSize : Int := bodySize + cd'.length
     .ok { hashed := m.data.take bodySize.toNat ++ cd', patchStart := zipSize, patchLen := (m.size : Int) - zipSize }
+
+/-- `DigestXapTar` (repaired tree) -/
+def digestTar (ms : List Member) (clean : Bool) : Res Digest := digestTarWith removeSignature ms clean
+
+/-- `DigestXapTar` before the repair of FX1 -/
+def digestTarOrig (ms : List Member) (clean : Bool) : Res Digest := digestTarWith removeSignatureOrig ms clean
 
 /-- what `ZipToTar` writes for the file `z` once `FindDirectory` has answered `dirLoc` -/
 def zipToTar (z : Bytes) (dirLoc : Nat) : List Member :=
   [⟨nameCD, z.length - dirLoc, z.drop dirLoc⟩, ⟨nameZip, z.length, z⟩]
 
-/-- the transform of `signers/zipbased`: `FindDirectory`, then the two members.  A directory offset beyond the end
-    of the file makes the first member's size negative, which the tar writer refuses. -/
-def transform (z : Bytes) : Res (List Member) :=
+/-- the transform of `signers/zipbased` (what signers/xap used before the repair of F10): `FindDirectory` on the whole file,
+    then the two members.  A directory offset beyond the end of the file makes the first member's size negative, which the
+    tar writer refuses. -/
+def transformOrig (z : Bytes) : Res (List Member) :=
   (Zip.findDirectory ⟨z, false, 0⟩).bind fun loc =>
+    if z.length < loc then .err "tarsize" else .ok (zipToTar z loc)
+
+/-- the transform of signers/xap as repaired: the ZIP directory is located in the part of the file in front of a trailing
+    signature frame (`FindDirectory` over `io.NewSectionReader(f, 0, size - SignatureFrameSize(f, size))`); both members
+    still extend to the end of the file. -/
+def transform (z : Bytes) : Res (List Member) :=
+  (Zip.findDirectory ⟨z.take (z.length - frameSize z), false, 0⟩).bind fun loc =>
     if z.length < loc then .err "tarsize" else .ok (zipToTar z loc)
 
 /-! ### `XapDigest.Sign` and the application of its patch -/
@@ -126,6 +157,10 @@ def signRound (z : Bytes) (dirLoc : Nat) (s : Bytes) : Res Bytes :=
 /-- one signing round through the signer module (`transform` first) -/
 def signFile (z s : Bytes) : Res Bytes :=
   (transform z).bind fun ms => (digestTar ms true).bind fun d => applyPatch z d s
+
+/-- the same before the repairs of FX1 and F10 -/
+def signFileOrig (z s : Bytes) : Res Bytes :=
+  (transformOrig z).bind fun ms => (digestTarOrig ms true).bind fun d => applyPatch z d s
 
 /-! ### `Verify` (verify.go) -/
 
